@@ -20,4 +20,4 @@ run() {
   echo "$sid seed=$SEED own=$own caught:$caught (ran: $checks)"
 }
 export -f run; export SEED
-ls -d /verif/seeded/*/ | sed 's:/$::' | xargs -P 6 -I{} bash -c 'run "$@"' _ {}
+ls -d /verif/seeded/*/ | sed 's:/$::' | xargs -P ${SWEEP_JOBS:-6} -I{} bash -c 'run "$@"' _ {}
